@@ -7,7 +7,7 @@ CONSTANTS
   PVals = {}
   MVals = {}
   WithDelSpace = FALSE
-  ExploreTainted = TRUE
+  OpenFindings = {}
   MaxOps = 0
   Dump = FALSE
 INIT TInit
